@@ -8,8 +8,10 @@ RULE = ("schemas from harness/schemagen.py whose top is a record, a top-level un
         "<= 4 candidates, 6 random ones otherwise) split off, made standalone (full name spelled out) and parsed first, in "
         "dependency order, against ONE shared named_schemas dict, then the parent with those definitions replaced by "
         "references; per form (raw / parsed / piecewise) every public operation on 2 generated data: schemaless_writer, "
-        "schemaless_reader, validate, json_writer, json_reader, writer (container, fixed sync marker) + reader of that file "
-        "alone, to_parsing_canonical_form, fingerprint, generate_many under random.seed; idempotence of parse_schema; "
+        "schemaless_reader (default and return_record_name / return_named_type (+_override) options), validate, json_writer, "
+        "json_reader, writer (container, fixed sync marker) + reader of that file alone + reader of the raw form's file with "
+        "this form as reader schema under the reader options, validate / validate_many / schemaless_writer / "
+        "writer(validator=True) on 2 data carrying union hints (tuples, -type), to_parsing_canonical_form, fingerprint, generate_many under random.seed; idempotence of parse_schema; "
         "non-trivial = distinct (schema, subset)")
 TRUSTED = ["harness/gen.py DataGen: conforming data", "harness/props/c12.py split(): the syntactic rewriting of a nested "
            "definition into a standalone document plus a reference"]
@@ -108,7 +110,11 @@ def outcome(fn):
         return ("raised", type(e).__name__)
 
 
-def ops(schema, data, raw_results=None):
+READ_OPTS = [dict(return_record_name=True), dict(return_record_name=True, return_record_name_override=True),
+             dict(return_named_type=True), dict(return_named_type=True, return_named_type_override=True)]
+
+
+def ops(schema, data, raw_results=None, hinted=()):
     """every public operation under one form of the schema; raw_results (the raw form's) supplies the bytes / texts
     that the reading operations decode"""
     import fastavro
@@ -124,6 +130,9 @@ def ops(schema, data, raw_results=None):
         src = (raw_results or res)["schemaless_writer:%d" % k]
         if src[0] == "ok":
             res["schemaless_reader:%d" % k] = outcome(lambda: repr(fastavro.schemaless_reader(io.BytesIO(bytes.fromhex(src[1])), schema)))
+            for oi, o in enumerate(READ_OPTS):      # non-default reader options
+                res["schemaless_reader[%s]:%d" % ("+".join(sorted(o)), k)] = outcome(
+                    lambda: repr(fastavro.schemaless_reader(io.BytesIO(bytes.fromhex(src[1])), schema, **o)))
         res["validate:%d" % k] = outcome(lambda: fastavro.validate(d, schema, raise_errors=False))
 
         def jw():
@@ -144,8 +153,30 @@ def ops(schema, data, raw_results=None):
             r = fastavro.reader(io.BytesIO(blob))
             return (to_parsing_canonical_form(r.writer_schema), repr(list(r)))
         res["writer:file-read-on-its-own"] = outcome(readback)
+        res["_blob"] = blob
     else:
         res["writer:blocks"] = c
+    # the file written from the RAW form, read with this form as the reader schema, under reader options
+    rb = (raw_results or res).get("_blob")
+    if rb is not None:
+        for o in [{}] + READ_OPTS:
+            res["reader[reader_schema%s]" % "".join("+" + x for x in sorted(o))] = outcome(
+                lambda: repr(list(fastavro.reader(io.BytesIO(rb), reader_schema=schema, **o))))
+    # data carrying union hints ((name, value) tuples, "-type" keys): validation and validating writers
+    for k, d in enumerate(hinted):
+        res["validate-hinted:%d" % k] = outcome(lambda: fastavro.validate(d, schema, raise_errors=False))
+
+        def wh():
+            fo = io.BytesIO(); fastavro.schemaless_writer(fo, schema, d); return fo.getvalue().hex()
+        res["schemaless_writer-hinted:%d" % k] = outcome(wh)
+    if hinted:
+        from fastavro.validation import validate_many
+        res["validate_many-hinted"] = outcome(lambda: validate_many(list(hinted), schema, raise_errors=False))
+
+        def cv():
+            fo = io.BytesIO(); fastavro.writer(fo, schema, list(hinted), sync_marker=SYNC, validator=True)
+            return fo.getvalue().split(SYNC, 1)[1].hex()
+        res["writer-validator-hinted"] = outcome(cv)
 
     def genmany():
         import uuid
@@ -162,6 +193,8 @@ def ops(schema, data, raw_results=None):
 
 def compare(ctx, name_a, ra, name_b, rb, cs):
     for op in ra:
+        if op.startswith("_"):
+            continue
         if op in rb and ra[op] != rb[op]:
             ctx.violation("corr:three-forms", dict(cs, operation=op), impl={name_a: str(ra[op])[:400], name_b: str(rb[op])[:400]},
                           model="equal results under every form",
@@ -332,15 +365,17 @@ def run(ctx):
             continue
         pw = st[1]
         dg = gen.DataGen(data_rng, dict(named), hints=False)
-        data = []
+        dgh = gen.DataGen(data_rng, dict(named), hints=True)
+        data, hinted = [], []
         for _ in range(2):
             try:
                 data.append(dg.datum(parsed))
+                hinted.append(dgh.datum(parsed))
             except Exception:
                 pass
-        r_raw = ops(copy.deepcopy(s), data)
-        r_parsed = ops(parsed, data, r_raw)
-        r_pw = ops(pw, data, r_raw)
+        r_raw = ops(copy.deepcopy(s), data, None, hinted)
+        r_parsed = ops(parsed, data, r_raw, hinted)
+        r_pw = ops(pw, data, r_raw, hinted)
         compare(ctx, "raw", r_raw, "parsed", r_parsed, cs) and compare(ctx, "raw", r_raw, "piecewise", r_pw, cs)
         # model of the canonical form of the piecewise-parsed parent
         ic = r_pw["canon"]
